@@ -169,13 +169,16 @@ pub(crate) mod verif_step {
             assert!(last == bars + shift);
             // (5) cursor: parked at the right edge of the last painted row (next ordinary output starts on a fresh
             //     line) when the whole frame was painted; at column 0 of the last blank row when the frame ends with padding
-            if trailing {
-                assert!(scr.row.get() + 1 == row && scr.col.get() == 0);
-            } else if np > 0 {
+            if np > 0 {
                 assert!(scr.row.get() + 1 == row);
-                if np == n {
+                if trailing {
+                    assert!(scr.col.get() == 0);
+                } else if np == n {
                     assert!(scr.col.get() == w);
                 }
+            } else if b > 0 {
+                // nothing painted: the cursor rests at column 0 below the (blank) padding, i.e. at the frame origin when there is none
+                assert!(scr.row.get() == fs + shift && scr.col.get() == 0);
             }
         }
         // (6) Inv1 again: the `last` rows ending at the cursor row are frame rows (no log/text row among them), they
